@@ -126,8 +126,32 @@ class Builder:
             o.__dict__.setdefault("recipe", None)
 
 
+def install_otp_stub(b, w, stack):
+    """object_typed_params is an uninterpreted deterministic function in the VCs: when the witness carries
+    model values for it, the real method is stubbed with them (falls back to the real one otherwise)."""
+    otp = w.get("otp") or {}
+    if not otp:
+        return
+    from virttest.utils_params import Params
+    from avocado_i2n.cartgraph import TestObject
+    table = {}
+    for on, per in otp.items():
+        for pn, data in per.items():
+            if on in b.objs and pn in b.objs:
+                table[(id(b.objs[on]), id(b.objs[pn]))] = data
+    real = TestObject.object_typed_params
+
+    def stub(self, params):
+        key = (id(self), id(params))
+        if key in table:
+            return Params(dict(table[key]))
+        return real(self, params)
+    stack.enter_context(mock.patch.object(TestObject, "object_typed_params", stub))
+
+
 def install_stubs(b, w, stack):
     """Summarised callees are stubbed with the values the model gave them (recorded in the witness)."""
+    install_otp_stub(b, w, stack)
     for key, table in w.get("stubs", {}).items():
         cls_name, attr = key.split(".")
         cls = b.cls_of(cls_name)
@@ -207,7 +231,7 @@ class SpecEnv:
             "implies": lambda a, b: (not a) or b, "iff": lambda a, b: bool(a) == bool(b),
             "wf_map": lambda m: True, "keys_of": lambda m: list(m.keys()),
             "ite": lambda c, a, b: a if c else b, "allocated": lambda o: True,
-            "str_is_int": _str_is_int, "str_int": lambda s: int(s),
+            "str_is_int": _str_is_int, "str_int": lambda s: int(s), "with_field": _with_field,
             "__snap": self.snapshot,
         }
         for cname in ("TestNode", "TestWorker", "TestSwarm", "TestObject", "NetObject", "VMObject", "ImageObject",
@@ -225,6 +249,19 @@ def _str_is_int(s):
         return True
     except (ValueError, TypeError):
         return False
+
+
+def _with_field(obj, field, value, fn):
+    missing = object()
+    old = obj.__dict__.get(field, missing)
+    obj.__dict__[field] = value
+    try:
+        return fn()
+    finally:
+        if old is missing:
+            del obj.__dict__[field]
+        else:
+            obj.__dict__[field] = old
 
 
 class OldRewriter(ast.NodeTransformer):
